@@ -83,6 +83,8 @@ def random_ctree(r, depth, counter):
     k = r.choice(['push', 'push', 'pushmut', 'locked', 'fork', 'raw', 'unrec', 'rawf', 'unrecf'])
     kids = [random_ctree(r, depth - 1, counter) for _ in range(1 + r.below(3))]
     if k in ('push', 'pushmut'):
+        if counter[1] >= 1 and r.chance(1, 4):
+            return [k, 1 + r.below(counter[1])] + kids          # a tag already in use (also on the same path): order must still show
         counter[1] += 1
         return [k, counter[1]] + kids
     if k == 'locked':
